@@ -101,7 +101,10 @@ async fn main() {
             let p = std::fs::canonicalize(&p).unwrap();
             igfiles.push((p.clone(), lines)); explicit.push(p);
         }
-        let watches: Vec<PathBuf> = if r.below(3) == 0 && dirs.len() > 1 { vec![dirs[1 + r.below(dirs.len() as u64 - 1) as usize].clone()] } else { vec![] };
+        // explicit watch paths: none, one, or two to three directories drawn anywhere in the tree (nested in each other, siblings, a deep one next to
+        // a shallow one in another subtree, …), in drawing order
+        let pick = |r: &mut Rng| dirs[1 + r.below(dirs.len() as u64 - 1) as usize].clone();
+        let watches: Vec<PathBuf> = if dirs.len() <= 1 { vec![] } else { match r.below(6) { 0 => vec![pick(&mut r)], 1 => vec![pick(&mut r), pick(&mut r)], 2 => (0..3).map(|_| pick(&mut r)).collect(), _ => vec![] } };
         let mut lst = vec![]; listing(&origin, &mut lst);
         let (files, errs) = from_origin(IgnoreFilesFromOriginArgs::new(&origin, watches.clone(), explicit.clone()).unwrap()).await;
         let enc_children: Vec<String> = lst.iter().map(|(d, ks)| format!("{}\x1e{}", d.display(), ks.iter().map(|k| k.display().to_string()).collect::<Vec<_>>().join("\x1f"))).collect();
